@@ -416,12 +416,10 @@ func (a *Analyzer) analyzeResultObject(info *ConstructorInfo, structType reflect
 
 	info.Returns = returns
 
-	// Check if function also returns error
-	if info.Type.NumOut() == 2 {
-		secondReturn := info.Type.Out(1)
-		if implementsError(secondReturn) {
-			info.HasErrorReturn = true
-		}
+	// Check if function also returns error (as its last value, whatever stands
+	// between the result object and it)
+	if n := info.Type.NumOut(); n >= 2 && implementsError(info.Type.Out(n-1)) {
+		info.HasErrorReturn = true
 	}
 
 	return nil
